@@ -163,7 +163,7 @@ def run(ctx: core.Ctx):
         sess = CatSession()
         CatSession.MAPPING = {"t": {"a": "INT"}}
         allv = [k for k, in [(r[0],) for r in ask(loop, sess, "SHOW VARIABLES")[1]]]
-        vpats = ["version", "version%", "%version%", "sql_mode", "character_set_%", "%_timeout", "a%", "license", "_icense", "time.zone", "time_zone"]
+        vpats = ["", "version", "version%", "%version%", "sql_mode", "character_set_%", "%_timeout", "a%", "license", "_icense", "time.zone", "time_zone"]
         vm = core.run_coq_terms(ctx, "c16v", HEADER, [core.coq_list([f"like {T(p)} {T(v)}" for v in allv]) for p in vpats], shard=20)
         for p, m in zip(vpats, vm):
             got = ask(loop, sess, f"SHOW VARIABLES LIKE '{p}'")
@@ -188,17 +188,17 @@ def run(ctx: core.Ctx):
             else:
                 dbs = sorted({d for c in m.values() for d in c}); tables = sorted({t for c in m.values() for d in c.values() for t in d})
             for cur in ([None] + dbs[:2]):
-                qs = [("databases", None, None)] + [("databases", None, p) for p in ("d%", "%b", "_b")]
+                qs = [("databases", None, None)] + [("databases", None, p) for p in ("d%", "%b", "_b", "")]
                 for db in dbs[:2]:
                     if db:
-                        qs += [("tables", db, None), ("tables", db, "a%"), ("tables", db, "%1")]
+                        qs += [("tables", db, None), ("tables", db, "a%"), ("tables", db, "%1"), ("tables", db, "")]
                 if cur:
                     qs.append(("tables", None, None))
                 for t in tables[:3]:
                     for db in ([None] + [d for d in dbs[:2] if d]):
                         if db is None and not cur and depth != 2:
                             continue      # neither FROM nor a current database: the property does not say
-                        qs += [("columns", (t, db), None), ("columns", (t, db), "a%"), ("columns", (t, db), "%d")]
+                        qs += [("columns", (t, db), None), ("columns", (t, db), "a%"), ("columns", (t, db), "%d"), ("columns", (t, db), "")]
                         if db is not None:
                             # the table named with its database - whatever the current database is
                             qs += [("describe-qualified", (t, db), None), ("desc-qualified", (t, db), None), ("columns-qualified", (t, db), None)]
@@ -226,7 +226,7 @@ def run(ctx: core.Ctx):
             sess = CatSession()
             sess.database = cur
             kind, arg, pat = q
-            like = f" LIKE '{pat}'" if pat else ""
+            like = f" LIKE '{pat}'" if pat is not None else ""      # (LIKE '' is a filter: it selects the empty name only)
             if kind == "databases":
                 sql = f"SHOW DATABASES{like}"
                 want = sorted(dec(x) for x in mres)
